@@ -543,7 +543,15 @@ class ObjectPairs(Suite):
                # objects of two classes that inherit one constructor, with equal arguments: the class is part of the value
                dict(cls='AutoRidge', cls2='AutoLasso', a1={'alpha': 0.5}, a2={'alpha': 0.5}),
                dict(cls='AutoRegressor', cls2='AutoRidge', a1={'alpha': 0.5, 'max_iter': 10}, a2={'alpha': 0.5, 'max_iter': 10}),
-               dict(cls='AutoRidge', a1={'alpha': 0.5}, a2={'alpha': 0.25})]
+               dict(cls='AutoRidge', a1={'alpha': 0.5}, a2={'alpha': 0.25}),
+               # a class whose public property is a lossy view of the argument it stores privately
+               dict(cls='AutoL', a1={'columns': ['b', 'a']}, a2={'columns': ['a', 'b']}),
+               dict(cls='AutoL', a1={'columns': ['a', 'a']}, a2={'columns': ['a']}),
+               dict(cls='AutoL', a1={'columns': ['a'], 'limit': 20}, a2={'columns': ['a'], 'limit': 30}),
+               # the second object is a copy of the first - whose text was taken - with the argument changed afterwards
+               dict(cls='AutoA', a1={'a': 0.1, 'b': 2}, a2={'a': 10.0, 'b': 2}, copied=True),
+               dict(cls='AutoRidge', a1={'alpha': 0.1}, a2={'alpha': 10.0}, copied=True),
+               dict(cls='AutoK', a1={'a': 1, 'offset': 5}, a2={'a': 2, 'offset': 5}, copied=True)]
         # a class edited and reloaded within one process (notebook autoreload): the class object is new, the name is not
         out += [dict(redefined=True, first=['a'], second=['a', 'b'], a1={'a': 1, 'b': 1}, a2={'a': 1, 'b': 2}),
                 dict(redefined=True, first=['a', 'b'], second=['b', 'c', 'a'], a1={'a': 1, 'b': 1, 'c': [1]}, a2={'a': 1, 'b': 1, 'c': [2]}),
@@ -588,10 +596,19 @@ class ObjectPairs(Suite):
                 sys.modules.pop('tcv_redef', None)
         if case.get('prime'):
             materialize(case['prime']).repr()
+        first_obj = None
         for cname, args in ((case['cls'], case['a1']), (case.get('cls2', case['cls']), case['a2'])):
             spec = {'__auto__': cname, 'args': args}
             reg = ParameterRegistry([Parameter('p')])
-            reg.set_values({'p': materialize(spec)})
+            obj = materialize(spec)
+            if case.get('copied') and first_obj is not None:
+                # a sweep: copy the object that was used (and rendered) before and change the argument on the copy
+                import copy as _copy
+                obj = _copy.copy(first_obj)
+                for k, v in args.items():
+                    setattr(obj, '_' + k if hasattr(obj, '_' + k) else k, materialize(v))
+            first_obj = first_obj or obj
+            reg.set_values({'p': obj})
             texts.append(reg.repr)
             kept.append(json.dumps([cname, sorted([k, tagged(v)] for k, v in filtered_auto_args(spec).items())], sort_keys=True))
         return dict(texts=texts, kept=kept)
